@@ -578,7 +578,7 @@ class Engine:
         if node.id in ('np', 'numpy'):
             return Opaque('np')
         if node.id in SPEC_BUILTINS or node.id in ('range', 'len', 'int', 'float', 'abs', 'min', 'max', 'print', 'tuple', 'isinstance', 'BCTParamError',
-                                                    'ValueError', 'KeyError', 'TypeError', 'bool', 'list'):
+                                                    'ValueError', 'KeyError', 'TypeError', 'NotImplementedError', 'bool', 'list'):
             return Opaque('builtin', name=node.id)
         if node.id in self.callees:
             return Opaque('callee', name=node.id)
@@ -933,7 +933,7 @@ class Engine:
         if name == 'abs':
             e = to_z3(args[0])
             return z3.If(e >= 0, e, -e)
-        if name in ('BCTParamError', 'ValueError', 'KeyError', 'TypeError'):
+        if name in ('BCTParamError', 'ValueError', 'KeyError', 'TypeError', 'NotImplementedError'):
             return ExcV(name, args)
         if name == 'print':
             return None
